@@ -177,6 +177,13 @@ def families(tier, horizon=25):
                name="hard_di/hard_disk_dipoles+lat4"),
         scaled("hard_disk_dipoles/hard_disk_dipoles_cells.ini", 3, start=hard_disk_dense(), horizon=horizon,
                name="hard_di/hard_disk_dipoles_cells+dense3"),
+        # rotated (non axis-aligned) velocities: long horizon, cheap (only end-of-chain draws)
+        scaled("hard_disk_dipoles/hard_disk_dipoles.ini", 3, start=hard_disk_dense(), horizon=200,
+               name="hard_di/hard_disk_dipoles+dense3",
+               extra={("SingleIndependentActiveSequentialDirectionEndOfChainEventHandler", "chain_time"): "0.37"}),
+        Spec("hard_di/single_hard_disk_dipole~long", "hard_disk_dipoles/single_hard_disk_dipole.ini", horizon=200,
+             overrides={("SingleIndependentActiveSequentialDirectionEndOfChainEventHandler", "chain_time"): "0.041"},
+             tags=("shipped",)),
         scaled("hard_disk_dipoles/hard_disk_dipoles_cells.ini", 4, start=hard_disk_lattice(2), horizon=horizon,
                name="hard_di/hard_disk_dipoles_cells+lat4"),
     ]
